@@ -20,6 +20,14 @@
 //
 // usage:  c15 [--maxlen N]              explore everything, print one JSON object, exit 1 if any case failed
 //         c15 --case "<case id>"        replay exactly one case (same JSON, exit 1 if it fails, 3 if no such case)
+// The element types are spread over C15_PART = 0..8 so that one -std= can be compiled as nine translation units in
+// parallel (the whole enumeration in one unit takes minutes to compile with the sanitizers); without -DC15_PART the
+// program covers everything.  checks/c15.py maps a case id to its part by the type field.
+#ifndef C15_PART
+#define C15_PART -1
+#endif
+#define C15_IN_PART(i) (C15_PART < 0 || C15_PART == (i))
+
 #include "harness.hpp"
 #include "impls.hpp"
 
@@ -745,13 +753,10 @@ void add_arrays() {
 #endif
 }
 
-// The element types are spread over C15_PART = 0..7 so that one -std= can be compiled as eight translation units in
-// parallel (the whole enumeration in one unit takes minutes to compile with the sanitizers); without -DC15_PART the
-// program covers everything.  checks/c15.py maps a case id to its part by the type field.
-#ifndef C15_PART
-#define C15_PART -1
-#endif
-#define C15_IN_PART(i) (C15_PART < 0 || C15_PART == (i))
+}  // namespace c15
+#include "argforms.hpp"
+namespace c15 {
+
 void register_groups() {
 #if C15_IN_PART(0)
   add_type<int>();
@@ -780,6 +785,9 @@ void register_groups() {
 #endif
 #if C15_IN_PART(7)
   add_type<TDCA>();
+#endif
+#if C15_IN_PART(8)
+  add_arg_forms<ILT>();
 #endif
 }
 
